@@ -222,6 +222,35 @@ def r35_pointwise_definitions(facts):
         else:
             n += 1
             _cmp(c, "reshape", where, got, fw.alg.atom("a0"), "flat values of reshape(a0)")
+        # ... the WHOLE buffer: a prefix / a part of it would make the constructor's element-count refusal pass for a smaller target
+        lets_ = {}
+        for x in walk(facts.root(b)):
+            if x.get("k") == "Block":
+                for st in x["stmts"]:
+                    if st["s"] == "let" and st["pat"].get("k") == "Binding" and st.get("init") is not None:
+                        lets_[st["pat"]["v"]] = st["init"]
+        part = None
+        for x in walk(facts.root(b)):
+            if x.get("k") == "Call" and (resolved(x) or "").startswith("<%s as core::convert::From<(" % ARRAY) and x["args"]:
+                tup = strip(x["args"][0])
+                if tup.get("k") == "Tuple" and len(tup["fields"]) == 2:
+                    todo = [tup["fields"][1]]
+                    seen_ = set()
+                    while todo:
+                        e_ = todo.pop()
+                        for y in walk(e_):
+                            if y.get("k") in ("VarRef", "UpvarRef") and y["v"] in lets_ and y["v"] not in seen_:
+                                seen_.add(y["v"])
+                                todo.append(lets_[y["v"]])
+                            if y.get("k") == "Adt" and (y.get("adt") or "").startswith("core::ops::range::"):
+                                part = part or y
+                            if y.get("k") == "Call" and (callee(y) or "").rsplit("::", 1)[-1] in ("take", "skip", "truncate", "split_at", "chunks", "step_by", "split_off", "drain", "first", "last"):
+                                part = part or y
+        if part is not None:
+            c.bad("reshape:whole-buffer", F.loc(b, part), "reshape builds its result from a part of the operand's values (`%s`): the constructor's element-count refusal is then satisfied by a target "
+                  "with fewer elements, which must be refused" % show(part)[:50])
+        else:
+            c.ok("reshape:whole-buffer", where, "reshape hands the operand's whole value buffer to the constructor", nontrivial=False)
     c.count("definitions compared", n)
     return c
 
@@ -388,6 +417,39 @@ def r34_documented_formulas(facts):
                     return dim_name(lets[v], depth + 1)
                 return None
             from .repr_rules import vec_literal_elems
+            # configuration handed to the constructor (the activation, the stride) is stored as given: a field whose type is that of exactly one
+            # parameter is initialised with that parameter
+            ptypes = {}
+            for p_ in facts.params(b):
+                if p_.get("pat") and p_["pat"].get("k") == "Binding":
+                    ptypes.setdefault(p_.get("ty"), []).append(p_["pat"]["v"])
+            for n_ in walk(facts.root(b)):
+                if n_.get("k") == "Adt" and n_.get("adt_local") and n_.get("fields"):
+                    for fld in n_["fields"]:
+                        fty = (strip(fld["e"]).get("ty") or "")
+                        cand = [t_ for t_ in ptypes if t_ == fty or (fty and t_ and t_.replace("'static ", "") == fty.replace("'static ", ""))]
+                        if ARRAY in fty or len(cand) != 1 or len(ptypes[cand[0]]) != 1:
+                            # also: an Option / closure-typed field set to a literal None although a parameter of an Option type exists
+                            if strip(fld["e"]).get("k") == "Adt" and strip(fld["e"]).get("variant") == "None":
+                                opt_params = [v for t_, vs in ptypes.items() if (t_ or "").startswith("core::option::Option<") for v in vs]
+                                if len(opt_params) == 1:
+                                    c.bad("config:%s.%s" % (self_ty_part, fld.get("name")), F.loc(b, fld["e"]), "`%s` is set to None although the constructor receives `%s`: the configuration the caller asked for is dropped"
+                                          % (fld.get("name"), opt_params[0].split("#")[0]))
+                            continue
+                        pv = ptypes[cand[0]][0]
+                        init0 = strip(fld["e"])
+                        hops0 = 0
+                        while isinstance(init0, dict) and init0.get("k") == "VarRef" and init0["v"] in lets and init0["v"] != pv and hops0 < 3:
+                            init0 = strip(lets[init0["v"]])
+                            hops0 += 1
+                        cinst = "config:%s.%s" % (self_ty_part, fld.get("name"))
+                        if F.var_of(init0) == pv:
+                            c.ok(cinst, F.loc(b, fld["e"]), "`%s` is the constructor's `%s` as given" % (fld.get("name"), pv.split("#")[0]), nontrivial=False)
+                        elif any(x_.get("k") in ("VarRef", "UpvarRef") and x_["v"] == pv for x_ in walk(init0)) or init0.get("k") == "Tuple":
+                            pass        # derived from it (re-assembled tuple ...): judged by the axis / provenance rules
+                        else:
+                            c.bad(cinst, F.loc(b, fld["e"]), "`%s` is not initialised from the constructor's `%s` (it is `%s`): the configuration the caller asked for is dropped"
+                                  % (fld.get("name"), pv.split("#")[0], show(init0)[:40]))
             for n_ in walk(facts.root(b)):
                 if n_.get("k") == "Adt" and n_.get("adt_local") and n_.get("fields"):
                     for fld in n_["fields"]:
